@@ -64,10 +64,42 @@ def quiet_library_logging():
 
 class _FormattingHandler(logging.Handler):
     """What a deployment with debug logging switched on does to every record:
-    format it (and here, drop it)."""
+    format it (and here, drop it).  With `reenter` the handler also uses the
+    library itself, the way a handler that ships log records over AMQP does:
+    a decode and an encode from inside whatever library call logged."""
+    reenter = False
+    _busy = False
+
+    def createLock(self):
+        # no handler lock: with `reenter` the handler executes library lines,
+        # i.e. pre-emption points, and a real lock held across a baton switch
+        # would block the next thread that logs for ever (a deadlock of the
+        # harness, not of the library)
+        self.lock = None
 
     def emit(self, record):
         record.getMessage()
+        if self.reenter and not _FormattingHandler._busy:
+            _FormattingHandler._busy = True
+            try:
+                from sim import lib
+                for raw in (b'\x08\x00\x05\x00\x00\x00\x00\xce',
+                            b'AMQP\x00\x01\x02\x03',
+                            b'\x01\x00\x01\x00\x00\x00\x04\x00\x0a\x00\x33'
+                            b'\xce'):
+                    try:
+                        lib.frame.unmarshal(raw)
+                    except Exception:
+                        pass
+                try:
+                    lib.frame.marshal(lib.commands.Basic.Ack(7), 3)
+                    lib.frame.marshal(lib.header.ContentHeader(
+                        0, 2, lib.commands.Basic.Properties(
+                            headers={'level': record.levelname})), 3)
+                except Exception:
+                    pass
+            finally:
+                _FormattingHandler._busy = False
 
     def handleError(self, record):
         raise
@@ -84,6 +116,7 @@ def apply_logging_config(trace):
         lg.propagate = False
         if not any(isinstance(h, _FormattingHandler) for h in lg.handlers):
             lg.addHandler(_FormattingHandler())
+        _FormattingHandler.reenter = bool(trace.get('log_reenter'))
     else:
         logging.disable(logging.CRITICAL)
 
@@ -646,8 +679,15 @@ def run_batches(spec_mod, check, tier, plan, workers=None, wall_cap=None,
                     continue
                 if c.cpu_mark is None or c.cpu_mark[0] != last:
                     # first look since the last progress: start counting
-                    c.cpu_mark = (last, cpu)
+                    c.cpu_mark = (last, cpu, now)
                 elif cpu - c.cpu_mark[1] > lim * 0.7:
+                    c.killed = True
+                    _kill_group(pid)
+                elif now - c.cpu_mark[2] > 15 and \
+                        cpu - c.cpu_mark[1] < 0.2:
+                    # neither progress nor computation for 15 s beyond the
+                    # limit: blocked (however loaded the machine is, a
+                    # runnable process gets some CPU in 15 s)
                     c.killed = True
                     _kill_group(pid)
             if len(info['confirmed_timeouts']) >= 2 and queue is not None \
